@@ -12,10 +12,72 @@ from sa.terms import tag, C
 
 MERGE = 'ampycloud.data.CeiloChunk._merge_close_groups'
 FG = 'ampycloud.data.CeiloChunk.find_groups'
-MINSEP = 'ampycloud.data.CeiloChunk._get_min_sep_for_height'
 NCOMP = 'ampycloud.layer.ncomp_from_gmm'
 LIMS = ('prm', ('MIN_SEP_LIMS',))
 VALS = ('prm', ('MIN_SEP_VALS',))
+_MINSEP_CACHE: dict = {}
+
+
+def minsep_routine(ctx, rule):
+    """(qualified name, binding of its parameters, name of the height parameter) of the routine that looks the minimum
+    separation up: the function of the package whose body reads MIN_SEP_VALS - found by what it does, not by its name
+    or by where it lives (method of the chunk, module-level function fed the parameters by its callers)."""
+    import ast
+    p = ctx.project
+    key = id(p)
+    if key in _MINSEP_CACHE:
+        return _MINSEP_CACHE[key]
+    cands = []
+    for q, f in p.funcs.items():
+        if any(isinstance(n, ast.Subscript) and isinstance(n.slice, ast.Constant) and n.slice.value == 'MIN_SEP_VALS'
+               for n in ast.walk(f.node)):
+            cands.append(q)
+    if len(cands) != 1:
+        raise AnalysisError(rule, f'the routine that looks the minimum separation up (subscripts the parameters with '
+                                  f"'MIN_SEP_VALS') was found {len(cands)} times: {cands}")
+    q = cands[0]
+    f = p.funcs[q]
+    a = f.node.args
+    params = [x.arg for x in a.posonlyargs + a.args + a.kwonlyargs]
+    binding = {}
+    if f.cls is None or f.is_static:
+        # a plain function: the parameters reach it as arguments; they must be the chunk's own (every call site)
+        fx = effects(ctx)
+        seen = []
+        for cq, e in fx.all_events():
+            for t in T.walk(e.value) if e.value is not None else ():
+                pass
+            for nm, v in fx.terms_of(e):
+                for x in T.find(v, lambda y: tag(y) == 'call' and (y[1] == ('g', q) or (
+                        y[1] == ('g', 'functools.partial') and y[2] and y[2][0] == ('g', q)))):
+                    args = x[2][1:] if x[1] == ('g', 'functools.partial') else x[2]
+                    b = dict(zip(params, args))
+                    b.update({k: v2 for k, v2 in x[3] if k})
+                    seen.append(b)
+        for b in seen:
+            for k, v in b.items():
+                if T.contains(v, lambda y: tag(y) == 'attr' and y[2] == '_prms') or tag(v) == 'prm':
+                    binding.setdefault(k, v)
+    height = [x for x in params if x not in binding and x not in ('self', 'cls')]
+    _MINSEP_CACHE[key] = (q, binding, height[0] if height else None)
+    return _MINSEP_CACHE[key]
+
+
+def is_minsep_callable(ctx, t, rule) -> bool:
+    """Is term t (handed to .apply / called) the separation routine with the chunk's own parameters?"""
+    q, binding, _ = minsep_routine(ctx, rule)
+    if tag(t) == 'bound' and t[1] == SELF and t[2] == q:
+        return True
+    if t == ('g', q) and not binding:
+        return True
+    if tag(t) == 'call' and t[1] == ('g', 'functools.partial') and t[2] and t[2][0] == ('g', q):
+        return all(T.contains(v, lambda y: tag(y) == 'attr' and y[2] == '_prms') or tag(v) == 'prm'
+                   for k, v in t[3] if k)
+    if tag(t) == 'lam' and T.contains(t[2], lambda y: tag(y) == 'call' and y[1] == ('g', q)):
+        return True
+    return False
+
+
 ORDER_KEEPING = {'flatten', 'ravel', 'reshape', 'copy', 'squeeze', 'astype', 'to_numpy'}
 
 
@@ -190,7 +252,7 @@ def merge_strictness(ctx, rule='C06-R3'):
                 d, ms = c[2], c[3]
                 ok_d = tag(d) == 'mcall' and d[2] == 'diff' and tag(d[1]) == 'col' and d[1][2] == 'height_base'
                 ok_m = tag(ms) == 'mcall' and ms[2] == 'apply' and tag(ms[1]) == 'col' and ms[1][2] == 'height_base' \
-                    and ms[3] == (('bound', SELF, MINSEP),) and d[1][1] == ms[1][1] if ok_d else False
+                    and len(ms[3]) == 1 and is_minsep_callable(ctx, ms[3][0], rule) and d[1][1] == ms[1][1] if ok_d else False
                 good = ok_d and ok_m
             elif tag(c) == 'cmp' and c[1] == 'le':
                 why = 'pairs exactly the minimum separation apart are merged (<= instead of <)'
@@ -242,7 +304,7 @@ def merge_strictness(ctx, rule='C06-R3'):
                   '(components exactly min_sep apart stay separate, as groups do)',
                   instance='layers: components merged iff delta < min_sep (same strictness as groups)')
     # the deltas are differences of the sorted component bases
-    fl = [l for l in fx.deep_loops(NCOMP).values() if l.kind == 'enumerate']
+    fl = [l for l in fx.deep_loops(NCOMP).values() if l.kind == 'enumerate' and not l.virtual]
     ok_it = any(tag(l.iter) == 'call' and l.iter[1] == ('g', 'numpy.diff') and l.iter[2] and
                 tag(l.iter[2][0]) == 'call' and l.iter[2][0][1] == ('g', 'numpy.sort') for l in fl)
     ctx.check(ok_it, rule, NCOMP, nf.node.name, nf.loc(), 'component deltas are not differences of the sorted bases',
@@ -252,9 +314,10 @@ def merge_strictness(ctx, rule='C06-R3'):
 def min_sep_lookup(ctx, rule='C06-R4'):
     fx = effects(ctx)
     p = ctx.project
+    MINSEP, binding, hname = minsep_routine(ctx, rule)
     f = p.func(MINSEP, rule)
     ctx.saw(f)
-    evs = fx.deep_events(MINSEP)
+    evs = fx.deep_events(MINSEP, binding)
     raises = [e for e in evs if e.kind == 'raise']
     want = T.lin_cmp(('cmp', 'ne', ('call', ('g', 'builtins.len'), (LIMS,), ()),
                       ('bin', '-', ('call', ('g', 'builtins.len'), (VALS,), ()), C(1))))
@@ -263,7 +326,7 @@ def min_sep_lookup(ctx, rule='C06-R4'):
               'no refusal when MIN_SEP_LIMS is not exactly one shorter than MIN_SEP_VALS (the lookup below could '
               'then index out of range)', instance='min_sep: lengths checked (AmpycloudError)')
     rets = [e for e in evs if e.kind == 'return']
-    h = ('p', f.params[1])
+    h = ('p', hname)
     rets = [r for r in rets if not r.ctx]
     lookup = rets[0].value if rets else None
     if tag(lookup) == 'sub' and tag(lookup[2]) == 'call' and dict(lookup[2][3]).get('side') == C('left'):
@@ -277,8 +340,19 @@ def min_sep_lookup(ctx, rule='C06-R4'):
         ctx.check(raises[0].seq < rets[0].seq, rule, MINSEP, f.node.name, f.loc(), 'length check after the lookup',
                   instance='min_sep: check precedes lookup')
     # callers pass the base of the (upper) set
-    for caller, e in (fx.deep_sites(MINSEP) if MINSEP in __import__('sa.anchors', fromlist=['ANCHORS']).ANCHORS else fx.sites.get(MINSEP, [])):
-        a = e.call[2][1] if len(e.call[2]) > 1 else None
+    a_ = f.node.args
+    params = [x.arg for x in a_.posonlyargs + a_.args + a_.kwonlyargs]
+    nsites = 0
+    for caller, e in fx.all_events():
+        if e.kind != 'call' or call_head(e) != MINSEP:
+            continue
+        nsites += 1
+        args = e.call[2]
+        if len(args) + len(e.call[3]) < len(params) and params and params[0] in ('self', 'cls'):
+            args = (None,) + tuple(args)          # the receiver is not among the recorded arguments
+        b = dict(zip(params, args))
+        b.update({k: v for k, v in e.call[3] if k})
+        a = b.get(hname)
         ok = a is not None and T.contains(a, lambda x: (tag(x) == 'cell' and x[3] == 'height_base'))
         ctx.check(ok, rule, caller, e.node, e.loc(),
                   f'minimum separation looked up for {T.show(a, maxlen=100)}: expected a base height',
@@ -315,7 +389,7 @@ def remerge_bookkeeping(ctx, rule='C06-R6'):
     f = p.func(NCOMP, rule)
     ctx.saw(f)
     ex, s = fx.deep(NCOMP)
-    loops = [l for l in ex.loops.values() if l.kind == 'enumerate' and tag(T.peel(l.iter)) == 'call'
+    loops = [l for l in ex.loops.values() if l.kind == 'enumerate' and not l.virtual and tag(T.peel(l.iter)) == 'call'
              and T.peel(l.iter)[1] == ('g', 'numpy.diff')]
     if len(loops) != 1:
         raise AnalysisError(rule, f'{len(loops)} loops over the differences of the sorted component bases')
@@ -375,6 +449,14 @@ def remerge_bookkeeping(ctx, rule='C06-R6'):
     if len(counts) == 1 and guard is not None:
         nm, dec, keep = counts[0]
         own = [l for l in guard_literals(guard) if T.contains(l, lambda x: x == ('lv', lp.id, 'elem'))]
+        # conditions under which the body is entered at all (a filtering generator / comprehension feeding the loop)
+        # hold for everything in the body, the decrement included
+        inloop = [e for e in s.events if e.loops and e.loops[-1] == lp.id]
+        if inloop:
+            entry = set(guard_literals(inloop[0].guard))
+            for e in inloop:
+                entry &= set(guard_literals(e.guard))
+            own = [l for l in own if l not in entry]
         ok = len(dec) == 1 and all(l in guard_literals(dec[0][0]) or dec[0][0] == l for l in own) and \
             T.contains(s.ret, lambda x: tag(x) == 'loopres' and x[1] == lp.id and x[2] == nm)
     ctx.check(ok, rule, NCOMP, lp.node, f.loc(lp.node),
